@@ -119,6 +119,22 @@ func TestC06(t *testing.T) {
 			fundingID = l.M.Txs[0].ID
 		}
 		nw := rapid.IntRange(2, 4).Draw(rt, "writers")
+		// most runs have a hot account every writer draws on (often the never-used pair)
+		hot := rapid.SampledFrom([]string{"", "bank", "bank", "a", "a:b"}).Draw(rt, "hot")
+		balOf := map[string]int64{"a": amounts[0], "a:b": amounts[1], "bank": 0}
+		pickSrc := func(label string) string {
+			if hot != "" && rapid.IntRange(0, 3).Draw(rt, label+"Hot") != 0 {
+				return hot
+			}
+			return rapid.SampledFrom(shared).Draw(rt, label)
+		}
+		// amounts are often individually affordable, so that only the combination overdraws
+		pickAmt := func(label string, affordable int64, max int) int64 {
+			if affordable >= 1 && rapid.IntRange(0, 2).Draw(rt, label+"Fits") != 0 {
+				return int64(rapid.IntRange(1, int(affordable)).Draw(rt, label))
+			}
+			return int64(rapid.IntRange(1, max).Draw(rt, label))
+		}
 		outs := make([]concOutcome, nw)
 		allowance := map[int]map[string]*big.Int{}
 		forced := map[int]bool{}
@@ -133,13 +149,13 @@ func TestC06(t *testing.T) {
 			}
 			switch rapid.IntRange(0, 9).Draw(rt, "opKind") {
 			case 0, 1, 2, 3, 4, 5:
-				src := rapid.SampledFrom(shared).Draw(rt, "src")
-				amt := int64(rapid.IntRange(1, 120).Draw(rt, "amt"))
+				src := pickSrc("src")
+				amt := pickAmt("amt", balOf[src], 120)
 				force := rapid.IntRange(0, 7).Draw(rt, "force") == 0
 				r := TxRequest{Postings: ledger.Postings{ledger.NewPosting(src, rapid.SampledFrom([]string{"u:1", "u:2", "world"}).Draw(rt, "dst"), "USD/2", big.NewInt(amt))}, Force: force}
 				if rapid.IntRange(0, 3).Draw(rt, "second") == 0 {
-					src2 := rapid.SampledFrom(shared).Draw(rt, "src2")
-					amt2 := int64(rapid.IntRange(1, 60).Draw(rt, "amt2"))
+					src2 := pickSrc("src2")
+					amt2 := pickAmt("amt2", balOf[src2]/2, 60)
 					r.Postings = append(r.Postings, ledger.NewPosting(src2, "u:1", "USD/2", big.NewInt(amt2)))
 					if !force {
 						demand[src2] += amt2
@@ -158,9 +174,9 @@ func TestC06(t *testing.T) {
 					}
 				})
 			case 6, 7:
-				src := rapid.SampledFrom(shared).Draw(rt, "src")
-				amt := int64(rapid.IntRange(1, 120).Draw(rt, "amt"))
+				src := pickSrc("src")
 				bound := int64(rapid.IntRange(0, 40).Draw(rt, "bound"))
+				amt := pickAmt("amt", balOf[src]+bound, 120)
 				unbounded := rapid.IntRange(0, 5).Draw(rt, "unbounded") == 0
 				clause := fmt.Sprintf(" allowing overdraft up to [USD/2 %d]", bound)
 				if unbounded {
